@@ -1237,7 +1237,10 @@ class ApertureStats:
         """
         areas = np.array([np.sum(weight.filled(0.0))
                           for weight in self._weight_cutout])
-        areas[self._all_masked] = np.nan
+        # all pixels masked for the ``sum_method`` aperture mask (which
+        # can differ from the "center" method mask)
+        all_masked = np.array([np.all(mask) for mask in self._mask_cutout])
+        areas[all_masked] = np.nan
         return areas << (u.pix**2)
 
     @lazyproperty
